@@ -8,7 +8,7 @@
              reference window (interval index -> sums of the recorded calls); it uses
              neither rw_* nor step/accept of the model. *)
 From Coq Require Import List ZArith QArith Bool.
-From GZ Require Export Lib.CheckLib Lib.RollingWindow Lib.RollingWindowSpec C01.Model C01.Gen.
+From GZ Require Export Lib.CheckLib Lib.RollingWindow Lib.RollingWindowSpec C01.Model C01.Gen C01.WrapModel.
 From GZgen Require Export C01Consts.
 Import ListNotations.
 Open Scope Z_scope.
@@ -26,6 +26,13 @@ Record iobs := mkI
 (* the injected draw: r.Float64() = m / 2^53 *)
 Definition mkU (m : Z) : Q := Qmake m 9007199254740992.
 
+(* wrapper executors: one call through a wrapper in front of a real breaker whose decision
+   is forced, and what was observed *)
+Record wcall := mkWC { wc_kind : wkind; wc_rej : bool; wc_ctxdone : bool; wc_d : derr }.
+Record wobs := mkWO { wo_invoked : Z; wo_succ : Z; wo_fail : Z; wo_drop : Z; wo_seen : seen }.
+(* REST: next handler invoked?, what the client got *)
+Record robs := mkRO { ro_invoked : Z; ro_seen : rseen }.
+
 (* forced interleavings: what the executor reports after every schedule action ... *)
 Record sobs := mkS
   { s_draws : Z; s_last : Z; s_acc : Z; s_tot : Z; s_failing : Z; s_working : Z; s_fail : Z; s_drop : Z }.
@@ -37,7 +44,9 @@ Record case := mkCase
   { cbase : Z; ccalls : list call;
     cobs : list iobs;               (* sequential history: one observation per call *)
     csched : list (nat * Z);        (* non-empty: the calls are concurrent, forced schedule *)
-    csobs : list sobs; ctobs : list tobs }.
+    csobs : list sobs; ctobs : list tobs;
+    cwcalls : list wcall; cwobs : list wobs;     (* non-empty: independent wrapper calls *)
+    crest : list hreq; crobs : list robs }.      (* non-empty: requests through one BreakerHandler *)
 
 (* ------------------------------------------------------------ near-ties *)
 
@@ -171,8 +180,65 @@ Definition conc_agrees (c : case) : bool :=
   conc_from cfg_gen (cbase c) (ccalls c) (init_iworld cfg_gen (cbase c) (length (ccalls c)))
             (csched c) (csobs c) (ctobs c).
 
+(* ---- wrappers *)
+Definition seen_eqb (a b : seen) : bool :=
+  match a, b with
+  | SNil, SNil | SSame, SSame | SBreakerUnavailable, SBreakerUnavailable
+  | SCtxErr, SCtxErr | SPanic, SPanic => true
+  | SStatus x, SStatus y => x =? y
+  | SBool x, SBool y => Bool.eqb x y
+  | _, _ => false
+  end.
+
+Definition rseen_eqb (a b : rseen) : bool :=
+  match a, b with
+  | RSCode x, RSCode y | RSPanic x, RSPanic y => x =? y
+  | _, _ => false
+  end.
+
+(* Redis.GetCtx turns redis.Nil into ("", nil) above the hook *)
+Definition real_seen (k : wkind) (d : derr) (s : seen) : seen :=
+  match k, d, s with
+  | WRedisReal, DRedisNil, SSame => SNil
+  | _, _, _ => s
+  end.
+
+Definition wcall_agrees (c : wcall) (o : wobs) : bool :=
+  let r := wrap (wc_kind c) (wc_rej c) (wc_ctxdone c) (wc_d c) in
+  (wr_invoked r =? wo_invoked o) && (wr_succ r =? wo_succ o) && (wr_fail r =? wo_fail o) &&
+  (wr_drop r =? wo_drop o) && seen_eqb (real_seen (wc_kind c) (wc_d c) (wr_seen r)) (wo_seen o).
+
+Fixpoint all2 {A B} (f : A -> B -> bool) (l1 : list A) (l2 : list B) : bool :=
+  match l1, l2 with
+  | [], [] => true
+  | x :: l1', y :: l2' => f x y && all2 f l1' l2'
+  | _, _ => false
+  end.
+
+Fixpoint rest_agrees_from (cfg : config) (w : world) (rs : list hreq) (os : list robs) : bool :=
+  match rs, os with
+  | [], [] => true
+  | r :: rs', o :: os' =>
+    let now := w_clock w + hq_gap r in
+    if near_tie cfg (history (swin (w_st w)) now) (slast (w_st w)) now (hq_u r) then true
+    else let '(w1, m) := step cfg w (rest_call r) in
+         let rr := rest_obs r m in
+         (rr_invoked rr =? ro_invoked o) && rseen_eqb (rr_seen rr) (ro_seen o) &&
+         rest_agrees_from cfg w1 rs' os'
+  | _, _ => false
+  end.
+
 Definition agrees (c : case) : bool :=
-  match csched c with [] => seq_agrees c | _ => conc_agrees c end.
+  match cwcalls c, crest c, csched c with
+  | _ :: _, _, _ => all2 wcall_agrees (cwcalls c) (cwobs c)
+  | [], _ :: _, _ => rest_agrees_from cfg_gen (init_world cfg_gen (cbase c)) (crest c) (crobs c)
+  | [], [], [] => seq_agrees c
+  | [], [], _ => conc_agrees c
+  end.
+
+Definition model_wobs (c : case) :=
+  (map (fun k => wrap (wc_kind k) (wc_rej k) (wc_ctxdone k) (wc_d k)) (cwcalls c),
+   rest_run cfg_gen (cbase c) (crest c)).
 
 Definition model_obs (c : case) :=
   match csched c with
@@ -380,7 +446,83 @@ Definition conc_prop_ok (c : case) : bool :=
                                (repeat O (length (ccalls c))) (csched c) (csobs c) in
   ok && tcheck_all (ccalls c) cnt (ctobs c).
 
+(* ---- wrappers: "resolves the promise exactly once: Accept on success / acceptable error,
+   Reject otherwise; a rejected call never reaches the downstream and the caller sees
+   503 / Unavailable / ErrServiceUnavailable", on the observations.  The tables of failures
+   are written out here independently of WrapModel. *)
+Definition spec_is_failure (k : wkind) (d : derr) : bool :=
+  match d with
+  | DPanic => true
+  | DNil => false
+  | _ =>
+    match k with
+    | WGrpcClient =>
+      match d with DStatus c => existsb (Z.eqb c) [4; 8; 12; 13; 14; 15] | _ => false end
+    | WGrpcServerUnary | WGrpcServerStream =>
+      match d with
+      | DStatus c => existsb (Z.eqb c) [4; 8; 12; 13; 14; 15]
+      | DCtxDeadline | DBreakerUnavailable => true
+      | _ => false
+      end
+    | WRedisCmd | WRedisIgnoredCmd | WRedisPipeline | WRedisReal =>
+      match d with DRedisNil | DWrappedRedisNil | DCtxCanceled | DWrappedCanceled => false | _ => true end
+    | WSqlExec | WSqlPredicate =>
+      match d with
+      | DSqlNoRows | DSqlTxDone | DCtxCanceled | DWrappedCanceled | DSqlAcceptable => false
+      | _ => true
+      end
+    end
+  end.
+
+Definition wcall_prop (c : wcall) (o : wobs) : bool :=
+  let k := wc_kind c in
+  match k with
+  | WSqlPredicate => seen_eqb (wo_seen o) (SBool (negb (spec_is_failure k (wc_d c))))
+  | WRedisIgnoredCmd => (wo_invoked o =? 1) && (wo_succ o + wo_fail o + wo_drop o =? 0)
+  | _ =>
+    if (match k with WGrpcServerStream => false | _ => wc_ctxdone c end) then
+      (wo_invoked o =? 0) && (wo_succ o =? 0) && (wo_fail o =? 0) && (wo_drop o =? 0) &&
+      seen_eqb (wo_seen o) SCtxErr
+    else if wc_rej c then
+      (wo_invoked o =? 0) && (wo_succ o =? 0) && (wo_fail o =? 0) && (wo_drop o =? 1) &&
+      (seen_eqb (wo_seen o) SBreakerUnavailable || seen_eqb (wo_seen o) (SStatus 14))
+    else
+      (wo_invoked o =? 1) && (wo_drop o =? 0) &&
+      (if spec_is_failure k (wc_d c) then (wo_succ o =? 0) && (wo_fail o =? 1)
+       else (wo_succ o =? 1) && (wo_fail o =? 0)) &&
+      match wc_d c with
+      | DNil => seen_eqb (wo_seen o) SNil
+      | DPanic => seen_eqb (wo_seen o) SPanic
+      | _ => negb (seen_eqb (wo_seen o) SNil) || (match k, wc_d c with WRedisReal, DRedisNil => true | _, _ => false end)
+      end
+  end.
+
+(* REST: T1 and the accounting on a reference window fed with the observed behaviour *)
+Fixpoint rest_prop_from (g : geom) (l : rlog) (clock : Z) (rs : list hreq) (os : list robs) : bool :=
+  match rs, os with
+  | [], [] => true
+  | r :: rs', o :: os' =>
+    let now := clock + hq_gap r in
+    if ro_invoked o =? 0 then
+      (* rejected: 503, never reaches the handler, and the window was over the limit *)
+      rseen_eqb (ro_seen o) (RSCode 503) && over_limit (ref_history g l now) &&
+      rest_prop_from g (ref_record g l now v_drop) now rs' os'
+    else
+      (ro_invoked o =? 1) &&
+      rseen_eqb (ro_seen o) (match hq_out r with HCode c => RSCode c | HPanic _ => RSPanic (h_code (hq_out r)) end) &&
+      rest_prop_from g (ref_record g l (now + hq_dur r)
+                          (if h_code (hq_out r) <? 500 then v_success else v_fail))
+                     (now + hq_dur r) rs' os'
+  | _, _ => false
+  end.
+
 Definition prop_ok (c : case) : bool :=
   (* the window the property talks about is the one the source configures *)
   (gen_window =? prop_window) &&
-  match csched c with [] => seq_prop_ok c | _ => conc_prop_ok c end.
+  match cwcalls c, crest c, csched c with
+  | _ :: _, _, _ => all2 wcall_prop (cwcalls c) (cwobs c)
+  | [], _ :: _, _ => rest_prop_from (mkGeom (cbase c) (bucket_duration cfg_gen) gen_buckets) [] (cbase c)
+                                    (crest c) (crobs c)
+  | [], [], [] => seq_prop_ok c
+  | [], [], _ => conc_prop_ok c
+  end.
